@@ -14,8 +14,6 @@ From RecordUpdate Require Import RecordSet.
 Import RecordSetNotations.
 
 Local Opaque calculate_checksum.
-Arguments Z.add : simpl never. Arguments Z.sub : simpl never. Arguments Z.mul : simpl never.
-Arguments Z.max : simpl never. Arguments Z.min : simpl never.
 
 (* ------------------------------------------------------------------ filestore operations respect lookup-equality *)
 Lemma same_tree_refl : forall t, same_tree t t.
@@ -263,3 +261,528 @@ Section RelSec.
 End RelSec.
 
 Notation Rel m := (Rel2 m m).
+
+(* ------------------------------------------------------------------ the walking tactic *)
+Create HintDb rel discriminated.
+
+Ltac rhead t := match t with ?f _ => rhead f | _ => t end.
+
+Ltac rhandler :=
+  let e := fresh "e" in let k := fresh "k" in let Hh := fresh "Hh" in
+  intros e k Hh; cbv beta in Hh;
+  match type of Hh with
+  | (if ?c then Some _ else None) = Some _ => destruct c; [inversion Hh; subst k; clear Hh | discriminate Hh]
+  end.
+
+(* bring the reads of the second tree back to reads of the first *)
+Ltac rext :=
+  repeat match goal with
+  | H : same_tree ?t ?t' |- context [fs_is_directory ?t' ?p] => rewrite <- (is_dir_ext t t' p H)
+  | H : same_tree ?t ?t' |- context [fs_file_exists ?t' ?p] => rewrite <- (exists_ext t t' p H)
+  | H : same_tree ?t ?t' |- context [fs_file_size ?t' ?p] => rewrite <- (file_size_ext t t' p H)
+  | H : same_tree ?t ?t' |- context [fs_read_data ?t' ?p ?o ?l] => rewrite <- (read_data_ext t t' p o l H)
+  | H : same_tree ?t ?t' |- context [lookup ?t' ?p] => rewrite <- (H p)
+  end.
+
+Ltac rside := first [ reflexivity | (intros; reflexivity) ].
+
+Ltac rel_step L projs :=
+  cbv beta zeta; rext;
+  match goal with
+  | |- Rel2 _ _ => solve [auto with rel nocore]
+  | |- Rel2 (bind get _) (bind get _) =>
+      apply rel_get_bind;
+      let s0 := fresh "s0" in let t' := fresh "t'" in let Ht := fresh "Ht" in
+      intros s0 t' Ht; cbv beta; projs
+  | |- Rel2 (bind (gets _) _) (bind (gets _) _) =>
+      apply (@rel_getfs_bind _ L);
+      let t := fresh "t" in let t' := fresh "t'" in let Ht := fresh "Ht" in intros t t' Ht
+  | |- Rel2 (bind _ _) (bind _ _) => apply rel_bind; [|intro]
+  | |- Rel2 (ret _) (ret _) => apply rel_ret
+  | |- Rel2 (raise _) (raise _) => apply rel_raise
+  | |- Rel2 (gets _) (gets _) => apply rel_gets; rside
+  | |- Rel2 (modify _) (modify _) => apply rel_modify; rside
+  | |- Rel2 (put _) (put _) =>
+      apply rel_put;
+      match goal with Ht : same_tree _ ?t' |- _ => apply (eqv_of _ _ t'); [exact Ht | reflexivity] end
+  | |- Rel2 (when ?b _) (when ?b _) => apply rel_when
+  | |- Rel2 (catch _ _) (catch _ _) => apply rel_catch1; [|rhandler]
+  | |- Rel2 (fold_left _ _ _) (fold_left _ _ _) => apply rel_fold; [|intro]
+  | |- Rel2 (if ?b then _ else _) (if ?b then _ else _) => destruct b
+  | |- Rel2 (match ?x with _ => _ end) (match ?x with _ => _ end) => destruct x
+  | |- Rel2 ?m ?m' => let h := rhead m in unfold h
+  end.
+
+(* ================================================================== destination handler *)
+Definition setfs_d (t : tree) (s : dst) : dst := s <| d_env ::= (fun e => e <| e_fs := t |>) |>.
+
+Lemma get_set_d : forall t s, fs_d (setfs_d t s) = t.
+Proof. reflexivity. Qed.
+Lemma set_set_d : forall t t' s, setfs_d t (setfs_d t' s) = setfs_d t s.
+Proof. reflexivity. Qed.
+Lemma set_get_d : forall s, setfs_d (fs_d s) s = s.
+Proof. intros [c st step stid r q p [n f rw l]]. reflexivity. Qed.
+
+#[export] Instance lens_d : FsLens dst :=
+  {| getfs := fs_d; setfs := setfs_d; get_set := get_set_d; set_set := set_set_d; set_get := set_get_d |}.
+
+(* local copy of the definition in props/C16.v *)
+Definition eqv_d (s s' : dst) : Prop :=
+  same_tree (fs_d s) (fs_d s') /\ s' = s <| d_env ::= (fun e => e <| e_fs := fs_d s' |>) |>.
+
+Lemma eqv_d_eqv : forall s s', eqv_d s s' <-> eqv s s'.
+Proof. intros s s'. split; intro H; exact H. Qed.
+
+Lemma d_cfg_setfs : forall t s, d_cfg (setfs t s) = d_cfg s. Proof. reflexivity. Qed.
+Lemma d_state_setfs : forall t s, d_state (setfs t s) = d_state s. Proof. reflexivity. Qed.
+Lemma d_step_setfs : forall t s, d_step (setfs t s) = d_step s. Proof. reflexivity. Qed.
+Lemma d_states_tid_setfs : forall t s, d_states_tid (setfs t s) = d_states_tid s. Proof. reflexivity. Qed.
+Lemma d_ready_setfs : forall t s, d_ready (setfs t s) = d_ready s. Proof. reflexivity. Qed.
+Lemma d_queue_setfs : forall t s, d_queue (setfs t s) = d_queue s. Proof. reflexivity. Qed.
+Lemma d_p_setfs : forall t s, d_p (setfs t s) = d_p s. Proof. reflexivity. Qed.
+
+Ltac dprojs :=
+  rewrite ?d_cfg_setfs, ?d_state_setfs, ?d_step_setfs, ?d_states_tid_setfs, ?d_ready_setfs, ?d_queue_setfs, ?d_p_setfs.
+
+Ltac reld := repeat (rel_step lens_d dprojs).
+
+Notation RelD m := (@Rel2 dst lens_d _ m m).
+
+(* ---- primitives *)
+Lemma rd_gp : forall {A} (f : dparams -> A), RelD (gp f).
+Proof. intros. reld. Qed.
+Lemma rd_setp : forall f, RelD (setp f).
+Proof. intros. reld. Qed.
+Lemma rd_set_step : forall v, RelD (set_step v).
+Proof. intros. reld. Qed.
+Lemma rd_get_step : RelD get_step.
+Proof. reld. Qed.
+Lemma rd_emit : forall e, RelD (emit e).
+Proof. intros. reld. Qed.
+Lemma rd_now : RelD now.
+Proof. reld. Qed.
+Lemma rd_add_packet : forall p, RelD (add_packet p).
+Proof. intros. reld. Qed.
+Lemma rd_reset_internal : RelD reset_internal.
+Proof. reld. Qed.
+#[local] Hint Resolve rd_gp rd_setp rd_set_step rd_get_step rd_emit rd_now rd_add_packet rd_reset_internal : rel.
+
+Lemma rd_tmode : RelD tmode.
+Proof. reld. Qed.
+#[local] Hint Resolve rd_tmode : rel.
+
+(* ---- the accesses to the filestore *)
+Lemma rd_vfs_write : forall name data off, RelD (vfs_write name data off).
+Proof.
+  intros name data off s s' E. destruct (eqv_elim _ _ E) as (t' & Ht & ->).
+  unfold vfs_write, bind, gets. cbn.
+  destruct (e_reject_writes (d_env s)); [split; [exact E | reflexivity]|].
+  pose proof (write_ext name data off _ _ Ht) as W. cbv beta in W.
+  change (getfs s) with (e_fs (d_env s)) in W.
+  destruct (fs_write_data (e_fs (d_env s)) name data off) as [a|e], (fs_write_data t' name data off) as [b|e'];
+    try contradiction; cbn.
+  - split; [|reflexivity]. apply (eqv_of _ _ b); [exact W | reflexivity].
+  - subst e'. split; [exact E | reflexivity].
+Qed.
+
+Lemma rd_vfs_op_tree : forall g, op_ext g -> RelD (vfs_op_tree g).
+Proof. intros g Hg. exact (rel_op_fs g Hg). Qed.
+
+Lemma rd_vfs_truncate : forall p, RelD (vfs_op_tree (fun t => fs_truncate_file t p)).
+Proof. intro p. apply rd_vfs_op_tree, truncate_ext. Qed.
+
+Lemma rd_vfs_create : forall p, RelD (vfs_op_tree (fun t => Ok (fst (fs_create_file t p)))).
+Proof. intro p. apply rd_vfs_op_tree, create_op_ext. Qed.
+
+Lemma rd_delete : forall name,
+  RelD (modify (fun s => s <| d_env ::= (fun e => e <| e_fs ::= (fun t => fst (fs_delete_file t name)) |>) |>)).
+Proof.
+  intro name.
+  exact (rel_modify_fs (fun t => fst (fs_delete_file t name)) (fun t t' H => proj1 (delete_ext t t' name H))).
+Qed.
+#[local] Hint Resolve rd_vfs_write rd_vfs_truncate rd_vfs_create rd_delete : rel.
+
+Lemma rd_vfs_checksum : forall ty name size, RelD (vfs_checksum ty name size).
+Proof. intros. reld. Qed.
+#[local] Hint Resolve rd_vfs_checksum : rel.
+
+(* ---- the handler, function by function *)
+Lemma rd_tid_or_assert : RelD tid_or_assert.
+Proof. reld. Qed.
+Lemma rd_rcfg_or_assert : RelD rcfg_or_assert.
+Proof. reld. Qed.
+Lemma rd_mode_is : forall m, RelD (mode_is m).
+Proof. intros. reld. Qed.
+Lemma rd_conf : RelD conf.
+Proof. reld. Qed.
+#[local] Hint Resolve rd_tid_or_assert rd_rcfg_or_assert rd_mode_is rd_conf : rel.
+
+Lemma rd_notice_of_cancellation : forall c, RelD (notice_of_cancellation c).
+Proof. intros. reld. Qed.
+#[local] Hint Resolve rd_notice_of_cancellation : rel.
+
+Lemma rd_declare_fault : forall c, RelD (declare_fault c).
+Proof. intros. reld. Qed.
+#[local] Hint Resolve rd_declare_fault : rel.
+
+Lemma rd_checksum_verify : RelD checksum_verify.
+Proof. reld. Qed.
+#[local] Hint Resolve rd_checksum_verify : rel.
+
+Lemma rd_prepare_eof_ack_packet : RelD prepare_eof_ack_packet.
+Proof. reld. Qed.
+#[local] Hint Resolve rd_prepare_eof_ack_packet : rel.
+
+Lemma rd_file_transfer_complete_transition : RelD file_transfer_complete_transition.
+Proof. reld. Qed.
+#[local] Hint Resolve rd_file_transfer_complete_transition : rel.
+
+Lemma rd_start_check_limit_handling : RelD start_check_limit_handling.
+Proof. reld. Qed.
+#[local] Hint Resolve rd_start_check_limit_handling : rel.
+
+Lemma rd_tracker_add : forall sg, RelD (tracker_add sg).
+Proof. intros. reld. Qed.
+#[local] Hint Resolve rd_tracker_add : rel.
+
+Lemma rd_lost_segment_handling : forall o l, RelD (lost_segment_handling o l).
+Proof. intros. reld. Qed.
+#[local] Hint Resolve rd_lost_segment_handling : rel.
+
+Lemma rd_filestore_rejection : RelD filestore_rejection.
+Proof. reld. Qed.
+#[local] Hint Resolve rd_filestore_rejection : rel.
+
+Lemma rd_handle_fd_pdu : forall o d, RelD (handle_fd_pdu o d).
+Proof. intros. reld. Qed.
+#[local] Hint Resolve rd_handle_fd_pdu : rel.
+
+Lemma rd_reset_nak_activity_parameters : RelD reset_nak_activity_parameters.
+Proof. reld. Qed.
+#[local] Hint Resolve rd_reset_nak_activity_parameters : rel.
+
+Lemma rd_deferred_lost_segment_handling : RelD deferred_lost_segment_handling.
+Proof. reld. Qed.
+#[local] Hint Resolve rd_deferred_lost_segment_handling : rel.
+
+Lemma rd_start_deferred_lost_segment_handling : RelD start_deferred_lost_segment_handling.
+Proof. reld. Qed.
+#[local] Hint Resolve rd_start_deferred_lost_segment_handling : rel.
+
+Lemma rd_handle_no_error_eof : RelD handle_no_error_eof.
+Proof. reld. Qed.
+#[local] Hint Resolve rd_handle_no_error_eof : rel.
+
+Lemma rd_handle_eof_pdu : forall c ck sz, RelD (handle_eof_pdu c ck sz).
+Proof. intros. reld. Qed.
+#[local] Hint Resolve rd_handle_eof_pdu : rel.
+
+Lemma rd_init_vfs_handling : forall base, RelD (init_vfs_handling base).
+Proof. intros. reld. Qed.
+#[local] Hint Resolve rd_init_vfs_handling : rel.
+
+Lemma rd_handle_metadata_packet : forall h cl ck sz names msgs, RelD (handle_metadata_packet h cl ck sz names msgs).
+Proof. intros. reld. Qed.
+#[local] Hint Resolve rd_handle_metadata_packet : rel.
+
+Lemma rd_common_first_packet_handler : forall h, RelD (common_first_packet_handler h).
+Proof. intros. reld. Qed.
+#[local] Hint Resolve rd_common_first_packet_handler : rel.
+
+Lemma rd_start_transaction : forall h cl ck sz names msgs, RelD (start_transaction h cl ck sz names msgs).
+Proof. intros. reld. Qed.
+#[local] Hint Resolve rd_start_transaction : rel.
+
+Lemma rd_common_first_packet_not_metadata : forall h, RelD (common_first_packet_not_metadata h).
+Proof. intros. reld. Qed.
+#[local] Hint Resolve rd_common_first_packet_not_metadata : rel.
+
+Lemma rd_handle_eof_without_previous_metadata : forall ck sz, RelD (handle_eof_without_previous_metadata ck sz).
+Proof. intros. reld. Qed.
+#[local] Hint Resolve rd_handle_eof_without_previous_metadata : rel.
+
+Lemma rd_handle_fd_without_previous_metadata : forall f o d, RelD (handle_fd_without_previous_metadata f o d).
+Proof. intros. reld. Qed.
+#[local] Hint Resolve rd_handle_fd_without_previous_metadata : rel.
+
+Lemma rd_idle_fsm : forall pkt, RelD (idle_fsm pkt).
+Proof. intros. reld. Qed.
+#[local] Hint Resolve rd_idle_fsm : rel.
+
+Lemma rd_notice_of_completion : RelD notice_of_completion.
+Proof. reld. Qed.
+#[local] Hint Resolve rd_notice_of_completion : rel.
+
+Lemma rd_handle_transfer_completion : RelD handle_transfer_completion.
+Proof. reld. Qed.
+#[local] Hint Resolve rd_handle_transfer_completion : rel.
+
+Lemma rd_prepare_finished_pdu : RelD prepare_finished_pdu.
+Proof. reld. Qed.
+#[local] Hint Resolve rd_prepare_finished_pdu : rel.
+
+Lemma rd_start_positive_ack_procedure : RelD start_positive_ack_procedure.
+Proof. reld. Qed.
+#[local] Hint Resolve rd_start_positive_ack_procedure : rel.
+
+Lemma rd_handle_finished_pdu_sent : RelD handle_finished_pdu_sent.
+Proof. reld. Qed.
+#[local] Hint Resolve rd_handle_finished_pdu_sent : rel.
+
+Lemma rd_fsm_advancement : RelD fsm_advancement.
+Proof. reld. Qed.
+#[local] Hint Resolve rd_fsm_advancement : rel.
+
+Lemma rd_check_limit_handling : RelD check_limit_handling.
+Proof. reld. Qed.
+#[local] Hint Resolve rd_check_limit_handling : rel.
+
+Lemma rd_handle_waiting_for_missing_metadata : forall pkt, RelD (handle_waiting_for_missing_metadata pkt).
+Proof. intros. reld. Qed.
+#[local] Hint Resolve rd_handle_waiting_for_missing_metadata : rel.
+
+Lemma rd_handle_positive_ack_procedures : forall again, RelD again -> RelD (handle_positive_ack_procedures again).
+Proof. intros again Hagain. reld. Qed.
+
+Lemma rd_handle_waiting_for_finished_ack : forall again pkt,
+  RelD again -> RelD (handle_waiting_for_finished_ack again pkt).
+Proof. intros again pkt Hagain. reld; apply rd_handle_positive_ack_procedures; exact Hagain. Qed.
+
+Lemma rd_step_is : forall v, RelD (step_is v).
+Proof. intros. reld. Qed.
+#[local] Hint Resolve rd_step_is : rel.
+
+Lemma rd_non_idle_fsm : forall fuel pkt, RelD (non_idle_fsm fuel pkt).
+Proof.
+  induction fuel as [|k IH]; intro pkt; cbn [non_idle_fsm]; reld;
+    apply rd_handle_waiting_for_finished_ack; reld.
+Qed.
+#[local] Hint Resolve rd_non_idle_fsm : rel.
+
+Lemma rd_check_inserted_packet : forall p, RelD (check_inserted_packet p).
+Proof. intros. reld. Qed.
+#[local] Hint Resolve rd_check_inserted_packet : rel.
+
+Lemma rd_state_machine : forall pkt, RelD (Dest.state_machine pkt).
+Proof. intros. reld. Qed.
+
+Lemma rd_get_next_packet : RelD Dest.get_next_packet.
+Proof. reld. Qed.
+
+Lemma rd_cancel_request : forall a b, RelD (Dest.cancel_request a b).
+Proof. intros. reld. Qed.
+
+Lemma dest_parametric : forall pkt s s',
+  eqv_d s s' ->
+  eqv_d (fst (Dest.state_machine pkt s)) (fst (Dest.state_machine pkt s')) /\
+  snd (Dest.state_machine pkt s) = snd (Dest.state_machine pkt s').
+Proof. intros pkt s s' H. exact (rd_state_machine pkt s s' H). Qed.
+
+Lemma dest_api_parametric : forall s s' a b,
+  eqv_d s s' ->
+  (eqv_d (fst (Dest.cancel_request a b s)) (fst (Dest.cancel_request a b s')) /\
+   snd (Dest.cancel_request a b s) = snd (Dest.cancel_request a b s')) /\
+  (eqv_d (fst (Dest.get_next_packet s)) (fst (Dest.get_next_packet s')) /\ snd (Dest.get_next_packet s) = snd (Dest.get_next_packet s')).
+Proof.
+  intros s s' a b H. split; [exact (rd_cancel_request a b s s' H) | exact (rd_get_next_packet s s' H)].
+Qed.
+
+(* ================================================================== source handler *)
+Definition setfs_s (t : tree) (s : src) : src := s <| s_env ::= (fun e => e <| e_fs := t |>) |>.
+
+Lemma get_set_s : forall t s, fs_s (setfs_s t s) = t.
+Proof. reflexivity. Qed.
+Lemma set_set_s : forall t t' s, setfs_s t (setfs_s t' s) = setfs_s t s.
+Proof. reflexivity. Qed.
+Lemma set_get_s : forall s, setfs_s (fs_s s) s = s.
+Proof. intros [c st step r q p sb pt sc sbits [n f rw l]]. reflexivity. Qed.
+
+#[export] Instance lens_s : FsLens src :=
+  {| getfs := fs_s; setfs := setfs_s; get_set := get_set_s; set_set := set_set_s; set_get := set_get_s |}.
+
+(* local copy of the definition in props/C16.v *)
+Definition eqv_s (s s' : src) : Prop :=
+  same_tree (fs_s s) (fs_s s') /\ s' = s <| s_env ::= (fun e => e <| e_fs := fs_s s' |>) |>.
+
+Lemma eqv_s_eqv : forall s s', eqv_s s s' <-> eqv s s'.
+Proof. intros s s'. split; intro H; exact H. Qed.
+
+Lemma s_cfg_setfs : forall t s, s_cfg (setfs t s) = s_cfg s. Proof. reflexivity. Qed.
+Lemma s_state_setfs : forall t s, s_state (setfs t s) = s_state s. Proof. reflexivity. Qed.
+Lemma s_step_setfs : forall t s, s_step (setfs t s) = s_step s. Proof. reflexivity. Qed.
+Lemma s_ready_setfs : forall t s, s_ready (setfs t s) = s_ready s. Proof. reflexivity. Qed.
+Lemma s_queue_setfs : forall t s, s_queue (setfs t s) = s_queue s. Proof. reflexivity. Qed.
+Lemma s_p_setfs : forall t s, s_p (setfs t s) = s_p s. Proof. reflexivity. Qed.
+Lemma s_step_before_setfs : forall t s, s_step_before (setfs t s) = s_step_before s. Proof. reflexivity. Qed.
+Lemma s_put_setfs : forall t s, s_put (setfs t s) = s_put s. Proof. reflexivity. Qed.
+Lemma s_seq_count_setfs : forall t s, s_seq_count (setfs t s) = s_seq_count s. Proof. reflexivity. Qed.
+Lemma s_seq_bits_setfs : forall t s, s_seq_bits (setfs t s) = s_seq_bits s. Proof. reflexivity. Qed.
+Lemma s_fs_setfs : forall t s, e_fs (s_env (setfs t s)) = t. Proof. reflexivity. Qed.
+
+Ltac sprojs :=
+  rewrite ?s_cfg_setfs, ?s_state_setfs, ?s_step_setfs, ?s_ready_setfs, ?s_queue_setfs, ?s_p_setfs,
+          ?s_step_before_setfs, ?s_put_setfs, ?s_seq_count_setfs, ?s_seq_bits_setfs, ?s_fs_setfs.
+
+Ltac rels := repeat (rel_step lens_s sprojs).
+
+Notation RelS m := (@Rel2 src lens_s _ m m).
+
+(* ---- primitives *)
+Lemma rs_gq : forall {A} (f : sparams -> A), RelS (gq f).
+Proof. intros. rels. Qed.
+Lemma rs_setq : forall f, RelS (setq f).
+Proof. intros. rels. Qed.
+Lemma rs_sset_step : forall v, RelS (sset_step v).
+Proof. intros. rels. Qed.
+Lemma rs_semit : forall e, RelS (semit e).
+Proof. intros. rels. Qed.
+Lemma rs_snow : RelS snow.
+Proof. rels. Qed.
+Lemma rs_sadd_packet : forall p, RelS (sadd_packet p).
+Proof. intros. rels. Qed.
+Lemma rs_sreset_internal : forall c, RelS (sreset_internal c).
+Proof. intros. rels. Qed.
+#[local] Hint Resolve rs_gq rs_setq rs_sset_step rs_semit rs_snow rs_sadd_packet rs_sreset_internal : rel.
+
+Lemma rs_stid_or_assert : RelS stid_or_assert.
+Proof. rels. Qed.
+Lemma rs_srcfg_or_assert : RelS srcfg_or_assert.
+Proof. rels. Qed.
+Lemma rs_put_or_assert : RelS put_or_assert.
+Proof. rels. Qed.
+Lemma rs_stmode : RelS stmode.
+Proof. rels. Qed.
+#[local] Hint Resolve rs_stid_or_assert rs_srcfg_or_assert rs_put_or_assert rs_stmode : rel.
+Lemma rs_smode_is : forall m, RelS (smode_is m).
+Proof. intros. rels. Qed.
+Lemma rs_sstep_is : forall v, RelS (sstep_is v).
+Proof. intros. rels. Qed.
+Lemma rs_src_names : RelS src_names.
+Proof. rels. Qed.
+#[local] Hint Resolve rs_smode_is rs_sstep_is rs_src_names : rel.
+
+(* ---- the accesses to the filestore (all of them reads) *)
+Lemma rs_checksum_calculation : forall size, RelS (checksum_calculation size).
+Proof. intros. rels. Qed.
+#[local] Hint Resolve rs_checksum_calculation : rel.
+
+Lemma rs_prepare_file_data_pdu : forall o l, RelS (prepare_file_data_pdu o l).
+Proof. intros. rels. Qed.
+#[local] Hint Resolve rs_prepare_file_data_pdu : rel.
+
+Lemma rs_transaction_start : RelS transaction_start.
+Proof. rels. Qed.
+#[local] Hint Resolve rs_transaction_start : rel.
+
+(* ---- the handler, function by function *)
+Lemma rs_prepare_metadata_pdu : RelS prepare_metadata_pdu.
+Proof. rels. Qed.
+#[local] Hint Resolve rs_prepare_metadata_pdu : rel.
+
+Lemma rs_prepare_eof_pdu : forall ck, RelS (prepare_eof_pdu ck).
+Proof. intros. rels. Qed.
+#[local] Hint Resolve rs_prepare_eof_pdu : rel.
+
+Lemma rs_start_positive_ack_procedure_s : RelS start_positive_ack_procedure_s.
+Proof. rels. Qed.
+#[local] Hint Resolve rs_start_positive_ack_procedure_s : rel.
+
+Lemma rs_handle_eof_sent : forall b, RelS (handle_eof_sent b).
+Proof. intros. rels. Qed.
+#[local] Hint Resolve rs_handle_eof_sent : rel.
+
+Lemma rs_notice_of_cancellation_s : forall c, RelS (notice_of_cancellation_s c).
+Proof. intros. rels. Qed.
+#[local] Hint Resolve rs_notice_of_cancellation_s : rel.
+
+Lemma rs_declare_fault_s : forall c, RelS (declare_fault_s c).
+Proof. intros. rels. Qed.
+#[local] Hint Resolve rs_declare_fault_s : rel.
+
+Lemma rs_retransmit_chunks : forall fuel o m seg, RelS (retransmit_chunks fuel o m seg).
+Proof. induction fuel; intros; cbn [retransmit_chunks]; rels. Qed.
+#[local] Hint Resolve rs_retransmit_chunks : rel.
+
+Lemma rs_handle_segment_req : forall rq, RelS (handle_segment_req rq).
+Proof. intros. rels. Qed.
+#[local] Hint Resolve rs_handle_segment_req : rel.
+
+Lemma rs_handle_retransmission : forall pkt, RelS (handle_retransmission pkt).
+Proof. intros. rels. Qed.
+#[local] Hint Resolve rs_handle_retransmission : rel.
+
+Lemma rs_prepare_progressing_file_data_pdu : RelS prepare_progressing_file_data_pdu.
+Proof. rels. Qed.
+#[local] Hint Resolve rs_prepare_progressing_file_data_pdu : rel.
+
+Lemma rs_sending_file_data_fsm : forall pkt, RelS (sending_file_data_fsm pkt).
+Proof. intros. rels. Qed.
+#[local] Hint Resolve rs_sending_file_data_fsm : rel.
+
+Lemma rs_handle_positive_ack_procedures_s : RelS handle_positive_ack_procedures_s.
+Proof. rels. Qed.
+#[local] Hint Resolve rs_handle_positive_ack_procedures_s : rel.
+
+Lemma rs_handle_waiting_for_ack : forall pkt, RelS (handle_waiting_for_ack pkt).
+Proof. intros. rels. Qed.
+#[local] Hint Resolve rs_handle_waiting_for_ack : rel.
+
+Lemma rs_handle_wait_for_finish : forall pkt, RelS (handle_wait_for_finish pkt).
+Proof. intros. rels. Qed.
+#[local] Hint Resolve rs_handle_wait_for_finish : rel.
+
+Lemma rs_notice_of_completion_s : RelS notice_of_completion_s.
+Proof. rels. Qed.
+#[local] Hint Resolve rs_notice_of_completion_s : rel.
+
+Lemma rs_fsm_advancement_s : RelS fsm_advancement_s.
+Proof. rels. Qed.
+#[local] Hint Resolve rs_fsm_advancement_s : rel.
+
+Lemma rs_fsm_non_idle : forall pkt, RelS (fsm_non_idle pkt).
+Proof. intros. rels. Qed.
+#[local] Hint Resolve rs_fsm_non_idle : rel.
+
+Lemma rs_check_inserted_packet_s : forall p, RelS (check_inserted_packet_s p).
+Proof. intros. rels. Qed.
+#[local] Hint Resolve rs_check_inserted_packet_s : rel.
+
+Lemma rs_state_machine_s : forall pkt, RelS (state_machine_s pkt).
+Proof. intros. rels. Qed.
+
+Lemma rs_get_next_packet_s : RelS get_next_packet_s.
+Proof. rels. Qed.
+
+Lemma rs_cancel_request_s : forall a b, RelS (cancel_request_s a b).
+Proof. intros. rels. Qed.
+
+Lemma rs_put_request : forall p, RelS (put_request p).
+Proof.
+  intros. rels.
+  change (getfs s0) with (e_fs (s_env s0)) in Ht. rels.
+Qed.
+
+Lemma source_parametric : forall pkt s s',
+  eqv_s s s' ->
+  eqv_s (fst (state_machine_s pkt s)) (fst (state_machine_s pkt s')) /\
+  snd (state_machine_s pkt s) = snd (state_machine_s pkt s').
+Proof. intros pkt s s' H. exact (rs_state_machine_s pkt s s' H). Qed.
+
+Lemma source_api_parametric : forall s s' p a b,
+  eqv_s s s' ->
+  (eqv_s (fst (put_request p s)) (fst (put_request p s')) /\ snd (put_request p s) = snd (put_request p s')) /\
+  (eqv_s (fst (cancel_request_s a b s)) (fst (cancel_request_s a b s')) /\
+   snd (cancel_request_s a b s) = snd (cancel_request_s a b s')) /\
+  (eqv_s (fst (get_next_packet_s s)) (fst (get_next_packet_s s')) /\ snd (get_next_packet_s s) = snd (get_next_packet_s s')).
+Proof.
+  intros s s' p a b H.
+  split; [exact (rs_put_request p s s' H)|].
+  split; [exact (rs_cancel_request_s a b s s' H) | exact (rs_get_next_packet_s s s' H)].
+Qed.
+
+Print Assumptions dest_parametric.
+Print Assumptions source_parametric.
+Print Assumptions source_api_parametric.
+Print Assumptions dest_api_parametric.
+Print Assumptions fs_ops_extensional.
+Print Assumptions nv_same_tree.
